@@ -45,7 +45,7 @@ def view(obj, defaults=True):
 
 
 def num_eq(a, b):
-    return isinstance(a, (int, float)) and isinstance(b, (int, float)) and not isinstance(a, bool) and not isinstance(b, bool) and float(a) == float(b)
+    return isinstance(a, (int, float)) and isinstance(b, (int, float)) and not isinstance(a, bool) and not isinstance(b, bool) and a == b      # (Python compares int with float exactly; going through float() would merge integers a double cannot tell apart)
 
 
 def subset_diff(inp, out, version, key, path=""):
